@@ -123,6 +123,7 @@ func idx(pool proxy.HostPool, h *proxy.UpstreamHost) int {
 func run(c *lib.Ctx) {
 	c.Rule("(a) policy level: every pool size x every assignment of host states {healthy, near-full, near-fail, unhealthy, failed, full} (sizes<=5; availability masks with rotating state variants for larger sizes) x every policy x 64 keys, driven through staticUpstream.Select and Policy.Select; non-trivial = distinct (size, state assignment, policy) with at least one unavailable and one available host. (b) end to end: real casket proxy blocks with failing backends; non-trivial = distinct (policy, backend-kind pattern, body size, framing) scenarios with >=1 failing backend")
 	policyLevel(c)
+	concurrentSelect(c)
 	endToEnd(c)
 	c.CheckRaces([]string{"proxy.(*RoundRobin)", "proxy.hostByHashing", "proxy.(*LeastConn)", "proxy.(*Random)", "proxy.(*bufferedBody)", "UpstreamHost"})
 	c.Assume("availability as defined by UpstreamHost.Available(): not Unhealthy, Fails < max_fails, Conns < max_conns")
@@ -270,6 +271,86 @@ func policyLevel(c *lib.Ctx) {
 			}()
 		}
 		wg.Wait()
+	}
+}
+
+// concurrentSelect drives one upstream from several goroutines at once with
+// part of the pool unavailable: policies keep shared state (the round-robin
+// cursor) that must stay consistent under concurrent selection.
+func concurrentSelect(c *lib.Ctx) {
+	const G, per = 8, 500
+	for _, n := range []int{2, 3, 5, 6} {
+		for _, pol := range policies {
+			for mi, mask := range []int{1, 1 << uint(n-1), (1 << uint(n)) - 2, 5 % (1 << uint(n))} {
+				if mask == 0 || mask == (1<<uint(n))-1 && n > 1 && mi != 2 {
+					continue
+				}
+				up, pool, err := mkUpstream(n, pol)
+				if err != nil {
+					c.Violation("harness/upstream", err.Error(), nil)
+					return
+				}
+				var av []int
+				as := make([]int, n)
+				for i := 0; i < n; i++ {
+					if mask>>uint(i)&1 == 1 {
+						as[i] = stHealthy
+						av = append(av, i)
+					} else {
+						as[i] = []int{stUnhealthy, stFailed, stFull}[(i+mi)%3]
+					}
+					setState(pool[i], as[i])
+				}
+				if len(av) == 0 {
+					up.Stop()
+					continue
+				}
+				c.Journal("C05a concurrent n=%d pol=%s states=%v", n, pol, as)
+				counts := make([]int64, n)
+				var nils, bad int64
+				var wg sync.WaitGroup
+				for g := 0; g < G; g++ {
+					wg.Add(1)
+					go func(g int) {
+						defer wg.Done()
+						for k := 0; k < per; k++ {
+							h := up.Select(mkReq(g*per + k))
+							if h == nil {
+								atomic.AddInt64(&nils, 1)
+								continue
+							}
+							gi := idx(pool, h)
+							if gi < 0 || !avail(as[gi]) {
+								atomic.AddInt64(&bad, 1)
+								continue
+							}
+							atomic.AddInt64(&counts[gi], 1)
+						}
+					}(g)
+				}
+				wg.Wait()
+				c.Eval(G * per)
+				c.Count("concurrent_select_calls", G*per)
+				c.Nontrivial(fmt.Sprintf("concurrent/%d/%v/%s", n, as, pol))
+				wit := map[string]interface{}{"pool": n, "states": as, "policy": pol, "goroutines": G, "calls": G * per, "nil_results": nils, "unavailable_results": bad, "counts": counts}
+				if nils > 0 {
+					c.Violation("C05/no-host-although-one-available/"+polKey(pol)+"/concurrent", fmt.Sprintf("%s returned no host %d times under %d concurrent selectors although hosts %v are available", pol, nils, G, av), wit)
+				}
+				if bad > 0 {
+					c.Violation("C05/unavailable-host-returned/"+polKey(pol)+"/concurrent", fmt.Sprintf("%s returned an unavailable host %d times under concurrent selection", pol, bad), wit)
+				}
+				if pol == "round_robin" && nils == 0 && bad == 0 {
+					lo, hi := int64(G*per/len(av)), int64((G*per+len(av)-1)/len(av))
+					for _, i := range av {
+						if counts[i] < lo || counts[i] > hi {
+							c.Violation("C05/round_robin-uneven/concurrent", fmt.Sprintf("round_robin visited host %d %d times in %d concurrent calls over %d available hosts", i, counts[i], G*per, len(av)), wit)
+							break
+						}
+					}
+				}
+				up.Stop()
+			}
+		}
 	}
 }
 
